@@ -277,21 +277,228 @@ Proof.
 Qed.
 
 (** ** consequences for the equations of a grammar *)
-(** [G']: a grammar in which the nonterminal [Y] has exactly the one rule [c], does not occur in
-    [c], and is used exactly once: by the [iy]-th ... in rule number [ir] = [rr];
-    [G]: the same grammar with [rr] replaced by the unfolded rule (the rule of [Y] stays, [Y] is
-    no longer used).  Both have the same labels and domains. *)
+End Unfold.
+
+Lemma In_firstn_nth {A} (l : list A) : forall i x, In x (firstn i l) -> exists k, k < i /\ nth_error l k = Some x.
+Proof.
+  induction l as [|y l IH]; intros [|i] x H; cbn [firstn] in H; try destruct H.
+  - exists 0. split; [lia|]. now subst.
+  - destruct (IH i x H) as (k & Hk & E). exists (S k). split; [lia|exact E].
+Qed.
+Lemma In_skipn_nth {A} (l : list A) : forall i x, In x (skipn i l) -> exists k, i <= k /\ nth_error l k = Some x.
+Proof.
+  induction l as [|y l IH]; intros [|i] x H; cbn [skipn] in H; try destruct H.
+  - exists 0. split; [lia|]. now subst.
+  - apply In_nth_error in H. destruct H as (k & E). exists (S k). split; [lia|exact E].
+  - destruct (IH i x H) as (k & Hk & E). exists (S k). split; [lia|exact E].
+Qed.
+
 Definition replace_nth {A} (l : list A) (i : nat) (x : A) : list A := firstn i l ++ x :: skipn (S i) l.
 
+(** [G']: a grammar in which the nonterminal [Y] has exactly the one rule [c] (which does not
+    use [Y]) and labels exactly one edge of the grammar, in rule number [ir] = [rr] (whose
+    left-hand side is not [Y]).  [unfolded]: the same grammar with that edge replaced by the
+    right-hand side of [c]; the rule of [Y] stays, [Y] is no longer used. *)
 Record unfolding (G' : grammar) (ir : nat) (rr : rule) es1 Y att es2 (c : rule) : Prop := {
   uf_rr : nth_error (g_rules G') ir = Some rr;
   uf_es : r_edges rr = es1 ++ (Y, att) :: es2;
+  uf_ok : unfold_ok G' rr es1 es2 att c;
   uf_y_nt : is_term G' Y = false;
   uf_y_rule : rules_of G' Y = [c];
   uf_y_not_lhs : r_lhs rr <> Y;
   uf_once_rr : forall ed, In ed (es1 ++ es2) -> fst ed <> Y;
   uf_once_c : forall ed, In ed (r_edges c) -> fst ed <> Y;
-  uf_once_other : forall k r', nth_error (g_rules G') k = Some r' -> k <> ir -> r_lhs r' <> Y ->
+  uf_once_other : forall k r', nth_error (g_rules G') k = Some r' -> k <> ir ->
                     forall ed, In ed (r_edges r') -> fst ed <> Y }.
 
-End Unfold.
+Definition unfolded (G' : grammar) (ir : nat) (rr : rule) es1 att es2 (c : rule) : grammar :=
+  {| g_doms := g_doms G'; g_labels := g_labels G';
+     g_rules := replace_nth (g_rules G') ir (inline_rule rr es1 es2 att c); g_start := g_start G' |}.
+
+Section Equations.
+Context {R : Type} (o : sr_ops R).
+Hypothesis Hr : sr_ring o.
+Add Ring RingRE : (sr_is_srt o Hr).
+
+Lemma rule_val_doms G1 G2 (e : env (R:=R)) r xi : g_doms G1 = g_doms G2 -> rule_val o G1 e r xi = rule_val o G2 e r xi.
+Proof. intro E. unfold rule_val, node_sizes, dom. now rewrite E. Qed.
+
+Lemma nth_error_split {A} (l : list A) i x : nth_error l i = Some x -> l = firstn i l ++ x :: skipn (S i) l.
+Proof.
+  revert i. induction l as [|y l IH]; intros [|i] H; try discriminate.
+  - cbn in H. injection H as ->. reflexivity.
+  - cbn [firstn skipn app]. f_equal. now apply IH.
+Qed.
+
+Variables (G' : grammar) (ir : nat) (rr : rule) (es1 : list (nat * list nat)) (Y : nat) (att : list nat)
+          (es2 : list (nat * list nat)) (c : rule).
+Hypothesis U : unfolding G' ir rr es1 Y att es2 c.
+Let G := unfolded G' ir rr es1 att es2 c.
+
+Lemma unf_is_term l : is_term G l = is_term G' l.
+Proof. reflexivity. Qed.
+
+(** update of an environment at [Y] *)
+Definition updY (x : env (R:=R)) (v : list nat -> R) : env (R:=R) := fun l => if Nat.eqb l Y then v else x l.
+
+Lemma env_k_upd w x v l : env_k G' w (updY x v) l = if Nat.eqb l Y then v else env_k G' w x l.
+Proof.
+  unfold env_k, updY. destruct (Nat.eqb l Y) eqn:E; [|reflexivity].
+  apply Nat.eqb_eq in E. subst l. now rewrite (uf_y_nt _ _ _ _ _ _ _ _ U).
+Qed.
+
+(** rules without [Y]-edge do not see the value of [Y] *)
+Lemma rule_val_no_Y w x v r xi : (forall ed, In ed (r_edges r) -> fst ed <> Y) ->
+  rule_val o G' (env_k G' w (updY x v)) r xi = rule_val o G' (env_k G' w x) r xi.
+Proof.
+  intro H. apply (rule_val_ext o). intros ed a Hed _. rewrite env_k_upd.
+  destruct (Nat.eqb (fst ed) Y) eqn:E; [apply Nat.eqb_eq in E; exfalso; exact (H ed Hed E)|reflexivity].
+Qed.
+
+Lemma stepY w x xi : step o G' w x Y xi = rule_val o G' (env_k G' w x) c xi.
+Proof.
+  unfold step. rewrite (uf_y_nt _ _ _ _ _ _ _ _ U), (uf_y_rule _ _ _ _ _ _ _ _ U).
+  rewrite (sumS_single o Hr). reflexivity.
+Qed.
+
+(** *** one step of the unfolded grammar = a Gauss-Seidel step of the original one *)
+Theorem step_unfold w x X xi : X <> Y ->
+  step o G w x X xi = step o G' w (updY x (step o G' w x Y)) X xi.
+Proof.
+  intro HX. unfold step at 1 2. rewrite unf_is_term. destruct (is_term G' X) eqn:TX; [reflexivity|].
+  unfold rules_of. change (g_rules G) with (replace_nth (g_rules G') ir (inline_rule rr es1 es2 att c)).
+  pose proof (nth_error_split _ _ _ (uf_rr _ _ _ _ _ _ _ _ U)) as Es.
+  rewrite Es at 2. unfold replace_nth. rewrite !filter_app. cbn [filter]. cbn [r_lhs inline_rule].
+  assert (Other : forall l, (forall r', In r' l -> exists k, nth_error (g_rules G') k = Some r' /\ k <> ir) ->
+             sumS o (filter (fun r => Nat.eqb (r_lhs r) X) l)
+                  (fun r => rule_val o G (fun l => if is_term G l then w l else x l) r xi)
+             = sumS o (filter (fun r => Nat.eqb (r_lhs r) X) l)
+                    (fun r => rule_val o G' (fun l => if is_term G' l then w l else updY x (step o G' w x Y) l) r xi)).
+  { intros l Hl. apply sumS_ext. intros r' Hr'. apply filter_In in Hr'. destruct Hr' as [Hin _].
+    destruct (Hl r' Hin) as (k & Hk & Hne).
+    rewrite (rule_val_doms G G') by reflexivity. symmetry.
+    apply (rule_val_no_Y w x). intros ed Hed. exact (uf_once_other _ _ _ _ _ _ _ _ U k r' Hk Hne ed Hed). }
+  assert (OA := Other (firstn ir (g_rules G'))
+                 (fun r' Hin => match In_firstn_nth _ _ _ Hin with
+                                | ex_intro _ k (conj Hk E) => ex_intro _ k (conj E (Nat.lt_neq _ _ Hk)) end)).
+  assert (OB := Other (skipn (S ir) (g_rules G'))
+                 (fun r' Hin => match In_skipn_nth _ _ _ Hin with
+                                | ex_intro _ k (conj Hk E) => ex_intro _ k (conj E (fun H : k = ir => Nat.nle_succ_diag_l ir (eq_ind k (fun z => S ir <= z) Hk ir H))) end)).
+  destruct (Nat.eqb (r_lhs rr) X).
+  2:{ rewrite !(sumS_app o Hr). now rewrite OA, OB. }
+  rewrite !(sumS_app o Hr), !sumS_cons, OA, OB. f_equal. f_equal.
+  - rewrite (rule_val_doms G G') by reflexivity.
+    rewrite <- (rule_val_unfold o Hr G' _ rr es1 Y att es2 c xi (uf_es _ _ _ _ _ _ _ _ U) (uf_ok _ _ _ _ _ _ _ _ U)
+                  (uf_once_rr _ _ _ _ _ _ _ _ U) (uf_once_c _ _ _ _ _ _ _ _ U)).
+    apply (rule_val_ext o). intros ed a Hed _. cbv beta.
+    destruct (Nat.eqb (fst ed) Y) eqn:E.
+    + apply Nat.eqb_eq in E. rewrite E, (uf_y_nt _ _ _ _ _ _ _ _ U). unfold updY. rewrite Nat.eqb_refl.
+      symmetry. apply stepY.
+    + unfold updY. rewrite E. reflexivity.
+Qed.
+
+(** *** the fixed points of the two systems of equations correspond *)
+Definition fixpoint (H : grammar) (w x : env (R:=R)) : Prop :=
+  forall X xi, is_term H X = false -> step o H w x X xi = x X xi.
+
+Lemma step_ext H w x x' X xi : (forall l zeta, is_term H l = false -> x l zeta = x' l zeta) ->
+  step o H w x X xi = step o H w x' X xi.
+Proof.
+  intro E. unfold step. destruct (is_term H X); [reflexivity|]. apply sumS_ext. intros r _.
+  apply (rule_val_ext o). intros ed a _ _. destruct (is_term H (fst ed)) eqn:T; [reflexivity|]. now apply E.
+Qed.
+
+Lemma stepY_unf w x xi : step o G w x Y xi = step o G' w x Y xi.
+Proof.
+  rewrite stepY. unfold step. rewrite unf_is_term, (uf_y_nt _ _ _ _ _ _ _ _ U).
+  (* rules of Y in G: the same single rule c *)
+  assert (E : rules_of G Y = [c]).
+  { pose proof (uf_y_rule _ _ _ _ _ _ _ _ U) as RY. unfold rules_of in *. unfold G, unfolded. cbn [g_rules].
+    pose proof (nth_error_split _ _ _ (uf_rr _ _ _ _ _ _ _ _ U)) as Es. rewrite Es in RY.
+    unfold replace_nth. rewrite !filter_app in *. cbn [filter] in *. cbn [r_lhs inline_rule].
+    destruct (Nat.eqb (r_lhs rr) Y) eqn:E; [apply Nat.eqb_eq in E; exfalso; exact (uf_y_not_lhs _ _ _ _ _ _ _ _ U E)|exact RY]. }
+  rewrite E, (sumS_single o Hr). apply rule_val_doms. reflexivity.
+Qed.
+
+Theorem fixpoint_unfold w x' : fixpoint G' w x' -> fixpoint G w x'.
+Proof.
+  intros F X xi TX. destruct (Nat.eq_dec X Y) as [->|HX].
+  - rewrite stepY_unf. now apply F.
+  - rewrite step_unfold by exact HX. rewrite <- (F X xi TX). apply step_ext.
+    intros l zeta Tl. unfold updY. destruct (Nat.eqb l Y) eqn:E; [|reflexivity].
+    apply Nat.eqb_eq in E. subst l. now apply F.
+Qed.
+
+Theorem fixpoint_fold w x : fixpoint G w x -> fixpoint G' w x.
+Proof.
+  intros F.
+  assert (FY : forall xi, step o G' w x Y xi = x Y xi).
+  { intro xi. rewrite <- stepY_unf. apply F. exact (uf_y_nt _ _ _ _ _ _ _ _ U). }
+  intros X xi TX. destruct (Nat.eq_dec X Y) as [->|HX]; [apply FY|].
+  rewrite <- (F X xi TX), step_unfold by exact HX. apply step_ext.
+  intros l zeta Tl. unfold updY. destruct (Nat.eqb l Y) eqn:E; [|reflexivity].
+  apply Nat.eqb_eq in E. subst l. symmetry. apply FY.
+Qed.
+
+(** *** non-recursive grammars: the sum-product of every nonterminal is unchanged *)
+(** a ranked (non-recursive) grammar has exactly one solution: its stabilised Kleene iterate *)
+Theorem ranked_fixpoint_unique H w rank x : ranked H rank -> fixpoint H w x ->
+  forall X xi, is_term H X = false -> x X xi = Zk o H w (S (rank X)) X xi.
+Proof.
+  intros Rk F. intro X. induction X as [X IH] using (well_founded_induction (Wf_nat.well_founded_ltof _ rank)).
+  intros xi TX. rewrite <- (F X xi TX), (Zk_S o H w (rank X)) by exact TX. unfold step. rewrite TX.
+  apply sumS_ext. intros r Hrin. apply in_rules_of in Hrin. destruct Hrin as [Hrin E].
+  apply (rule_val_ext o). intros ed a Hed _. unfold env_k. destruct (is_term H (fst ed)) eqn:T; [reflexivity|].
+  assert (Hlt : rank (fst ed) < rank X) by (rewrite <- E; apply (Rk r Hrin); [now rewrite E|exact Hed|exact T]).
+  rewrite (IH (fst ed) Hlt _ T). symmetry. apply (Zk_stable_ge o H w rank Rk); trivial.
+Qed.
+
+Theorem ranked_fixpoint_exists H w rank : ranked H rank ->
+  fixpoint H w (fun X xi => Zk o H w (S (rank X)) X xi).
+Proof.
+  intros Rk X xi TX. rewrite (Zk_S o H w (rank X)) by exact TX. unfold step. rewrite TX.
+  apply sumS_ext. intros r Hrin. apply in_rules_of in Hrin. destruct Hrin as [Hrin E].
+  apply (rule_val_ext o). intros ed a Hed _. unfold env_k. destruct (is_term H (fst ed)) eqn:T; [reflexivity|].
+  assert (Hlt : rank (fst ed) < rank X) by (rewrite <- E; apply (Rk r Hrin); [now rewrite E|exact Hed|exact T]).
+  symmetry. apply (Zk_stable_ge o H w rank Rk); trivial.
+Qed.
+
+(** unfolding keeps the grammar ranked (same rank function) *)
+Lemma ranked_unfolded rank : ranked G' rank -> ranked G rank.
+Proof.
+  intros Rk r Hin Tl ed Hed Ted.
+  unfold G, unfolded in Hin. cbn [g_rules] in Hin. unfold replace_nth in Hin.
+  pose proof (nth_error_split _ _ _ (uf_rr _ _ _ _ _ _ _ _ U)) as Es.
+  assert (Hrr : In rr (g_rules G')) by (eapply nth_error_In; apply U).
+  apply in_app_or in Hin. destruct Hin as [Hin|[<-|Hin]].
+  - apply (Rk r); trivial. rewrite Es. apply in_or_app. now left.
+  - cbn [r_lhs r_edges inline_rule] in *.
+    apply in_app_or in Hed. destruct Hed as [Hed|Hed]; [|apply in_app_or in Hed; destruct Hed as [Hed|Hed]].
+    + apply (Rk rr Hrr Tl); trivial. rewrite (uf_es _ _ _ _ _ _ _ _ U). apply in_or_app. now left.
+    + apply (Rk rr Hrr Tl); trivial. rewrite (uf_es _ _ _ _ _ _ _ _ U). apply in_or_app. right. now right.
+    + apply in_map_iff in Hed. destruct Hed as (ed0 & <- & Hed0). cbn [fst] in *.
+      assert (Hc : In c (g_rules G') /\ r_lhs c = Y).
+      { apply in_rules_of. rewrite (uf_y_rule _ _ _ _ _ _ _ _ U). now left. }
+      destruct Hc as [Hc Ec].
+      assert (L1 : rank (fst ed0) < rank Y).
+      { rewrite <- Ec. apply (Rk c Hc); trivial. rewrite Ec. apply U. }
+      assert (L2 : rank Y < rank (r_lhs rr)).
+      { apply (Rk rr Hrr Tl (Y, att)); [|apply U]. rewrite (uf_es _ _ _ _ _ _ _ _ U). apply in_or_app. right. now left. }
+      lia.
+  - apply (Rk r); trivial. rewrite Es. apply in_or_app. right. now right.
+Qed.
+
+(** the unfolding lemma, grammar level, non-recursive grammars: in every commutative semiring
+    the sum-product of EVERY nonterminal (the stabilised Kleene iterate = the sum over all
+    derivation trees, C01) is the same before and after unfolding *)
+Theorem Zk_unfold_nonrec w rank : ranked G' rank ->
+  forall X xi, is_term G' X = false ->
+    Zk o G w (S (rank X)) X xi = Zk o G' w (S (rank X)) X xi.
+Proof.
+  intros Rk X xi TX.
+  pose proof (ranked_fixpoint_exists G' w rank Rk) as F'.
+  apply fixpoint_unfold in F'.
+  symmetry. exact (ranked_fixpoint_unique G w rank _ (ranked_unfolded rank Rk) F' X xi TX).
+Qed.
+
+End Equations.
